@@ -686,6 +686,7 @@ def c09(ctx):
     ctx.add(backup_decision_table(fx))
     ctx.add(backup_numeric_order(fx))
     ctx.add(backup_scan_by_name(fx))
+    ctx.add(backup_same_directory(fx))
     ctx.add([o for o in r_err.run(fx, crates=("libxcp",)) if o.fn.startswith("libxcp::backup::")
              or "rename" in o.key or "backup" in o.key or "read_dir" in o.key])
 
@@ -812,6 +813,47 @@ def backup_scan_by_name(fx):
                 n += 1
     obs.append(Ob("R-PROBE", mkkey("R-PROBE", "libxcp::backup", "scan-by-name", 0, "scan"), True, "", "libxcp::backup",
                   "the backup-number scan decides by entry names only (no file-type probe of directory entries)"))
+    return obs
+
+
+RESOLVERS = ("std::path::Path::canonicalize", "std::fs::canonicalize", "std::path::Path::read_link", "std::fs::read_link")
+
+
+def backup_same_directory(fx):
+    """C09: earlier backups are looked for in the directory in which the new backup will be *named* (the lexical
+    parent of the destination as spelt).  Resolving the destination's own last component (canonicalize / read_link
+    on the path itself) lists the directory of a symlink's *target* instead: backups sitting next to the link are
+    not seen, and `~1~` is handed out again.  Resolving the parent (a value obtained from `Path::parent`) names the
+    same directory and is accepted."""
+    obs = []
+    cg = q.callgraph(fx)
+    scanners = set(p_ for p_, g_ in fx.fns.items() if g_.crate == "libxcp" and not g_.from_expansion and any(
+        x in cg.reach(p_) for x in ("std::path::Path::read_dir", "std::fs::read_dir")))
+    import views as _v
+    role_entries = set(_v.roles(fx).values()) | set(ENTRY_POINTS) | {MAIN}
+    n = 0
+    for f in ro.fns_in_scope(fx, crates=("libxcp",)):
+        in_scope = f.path.startswith("libxcp::backup::") or ((f.path in scanners or f.root in scanners)
+                                                             and f.path not in role_entries and f.root not in role_entries
+                                                             and not cg.reach(f.path).get(CB_SEND) and "drivers" not in f.path
+                                                             and WALKER != f.root and NEW != f.root)
+        if not in_scope:
+            continue
+        for bi, t in f.calls():
+            o = q.names(t)[0] or ""
+            pth = q.names(t)[1] or ""
+            if (o in RESOLVERS or pth in RESOLVERS) and not q.span_excluded(t["span"]) and t["args"]:
+                calls, atoms, fields = q.arg_origin_calls(f, t, 0)
+                of_parent = any(c.endswith("Path::parent") for c in calls)
+                obs.append(Ob("R-PROBE", mkkey("R-PROBE", f.path, o or pth, n, "same-directory"), of_parent, q.loc_of(t), f.path,
+                              "%s in the backup logic %s" % ((o or pth).split("::")[-1],
+                                                             "resolves the parent directory (same directory)" if of_parent else
+                                                             "resolves the destination's own name: for a symlinked destination "
+                                                             "the scan lists the target's directory, not the one the backup is named in"),
+                              None if of_parent else dict(callee=o or pth)))
+                n += 1
+    obs.append(Ob("R-PROBE", mkkey("R-PROBE", "libxcp::backup", "same-directory", 0, "scan"), True, "", "libxcp::backup",
+                  "the backup scan lists the lexical parent of the destination (no symlink resolution of the name itself)"))
     return obs
 
 
